@@ -5,7 +5,7 @@ import json
 from props import functional_props
 
 FUNCTIONAL = set(functional_props.PLAN)
-OTHERS = {"C04", "C01", "C02"}
+OTHERS = {"C04", "C01", "C02", "C20", "C05"}
 ALL = FUNCTIONAL | OTHERS
 
 
@@ -21,6 +21,12 @@ def run(prop, out, drv):
     if prop == "C02":
         from props import c02
         return c02.run(out, drv)
+    if prop == "C20":
+        from props import c20
+        return c20.run(out, drv)
+    if prop == "C05":
+        from props import c05
+        return c05.run(out, drv)
     raise SystemExit(f"unknown property {prop}")
 
 
